@@ -120,6 +120,7 @@ class HistoryRunner:
                 ctx.count('worker_job_started_overtook_schedule_job', getattr(fz, 'early_job_started', 0))
                 ctx.count('worker_job_complete_overtook_schedule_job', getattr(fz, 'early_job_complete', 0))
                 ctx.count('commits_through_the_commit_route', getattr(fz, 'route_commits', 0))
+                ctx.count('driver_restarts', getattr(fz, 'driver_restarts', 0))
                 ctx.count('requests_served_in_the_middle_of_a_background_pass', getattr(fz, 'interleavings', 0))
                 pm = next((m for m in self.monitors if hasattr(m, 'flags')), None)
                 if pm is not None:
